@@ -301,6 +301,14 @@ func Solve[S any](g *Graph, l Lattice[S]) *Solution[S] {
 	work := []*cfg.Block{entry}
 	inWork := map[*cfg.Block]bool{entry: true}
 	visits := map[*cfg.Block]int{}
+	// a block with many predecessors (the join behind a switch) is legitimately updated once per predecessor:
+	// widening starts only after that many updates and three more
+	npreds := map[*cfg.Block]int{}
+	for _, b := range g.CFG.Blocks {
+		for _, s := range b.Succs {
+			npreds[s]++
+		}
+	}
 	iter := 0
 	for len(work) > 0 {
 		iter++
@@ -328,7 +336,7 @@ func Solve[S any](g *Graph, l Lattice[S]) *Solution[S] {
 			} else {
 				visits[s]++
 				join := l.Join
-				if l.Widen != nil && visits[s] > 3 {
+				if l.Widen != nil && visits[s] > 3+npreds[s] {
 					join = l.Widen
 				}
 				j := join(sol.in[s], st)
